@@ -1822,7 +1822,9 @@ class CEval(AutoEvaluator):
                         return F.sym("fstr:" + ast.unparse(node))
                     parts.append(x)
                     spec_parts.append((x, v.conversion, spec))
-                    plain = plain and v.conversion == -1 and v.format_spec is None and not isinstance(x, tuple)
+                    # (`{n:d}` of a number read from the file prints its decimal digits, as `{n}` / str(n) does)
+                    plain = plain and v.conversion == -1 and not isinstance(x, tuple) and \
+                        (v.format_spec is None or (spec in ("d", "") and _numeric_piece(x)))
                 else:
                     return F.sym("fstr:" + ast.unparse(node))
             txt = K.fold_format(spec_parts)
@@ -3275,8 +3277,15 @@ class Walker:
                 for k, v in pairs:
                     self.assign(ast.copy_location(ast.Attribute(value=obj, attr=k, ctx=ast.Store()), node), v, node)
                 return NONE
-        if name in ("SimpleNamespace", "types.SimpleNamespace") and not node.args and not any(k.arg is None for k in node.keywords):
-            kws = {k.arg: ev.ev(k.value) for k in node.keywords}
+        if name in ("SimpleNamespace", "types.SimpleNamespace") and not node.args:
+            if any(k.arg is None for k in node.keywords):
+                # SimpleNamespace(**table): the fields of a literal table with text keys (anything else is not a record the rules can read)
+                if not all(k.arg is not None or (isinstance(tv_ := ev.ev(k.value), DictValue) and all(isinstance(x, str) for x in tv_.d))
+                           for k in node.keywords):
+                    return NotImplemented
+                kws = self._args(node, ev)[1]
+            else:
+                kws = {k.arg: ev.ev(k.value) for k in node.keywords}
             val = make_record(list(kws.items()), ordered=False)
             self.events.append(("call", name, [], kws, self.guard, node, None, self.frame.id, val))
             return val
